@@ -24,7 +24,7 @@ ASSUMPTIONS = [
     "per-link FIFO network (cfg_fifo = true), as in C08",
     "history = reads of reqCh / writes of respCh of the AClient archetypes (what bootstrap.Client exposes)",
 ]
-RULE = ("cases = corpus/C09/*.json (the refutation witness first), then seeded adaptive random walks with 1-3 servers, 1-3 clients, 1-3 keys, "
+RULE = ("cases = corpus/C09/*.json (the refutation witness, the client-carrying leader-change scenarios of lib/c09_scen.py), the same scenario scripts run LIVE on the tree under test when they take another path there, then seeded adaptive random walks with 1-3 servers, 1-3 clients, 1-3 keys, "
         "profiles biased to client timeouts/retries, leader changes and minority crashes; every history is checked by the Coq checker "
         "(vm_compute) and its Python port. Non-trivial = >= 2 completed operations and (a retry or >= 2 clients with overlapping operations).")
 
@@ -59,11 +59,8 @@ def run_fixed(h, case):
             failures.append({"signature": "generated-code-" + outcome.replace(":", "-") + ":" + out["label"],
                              "what": "%s in %s: %s" % (outcome, out["label"], out.get("err", "")[:200])})
             break
-        lost = acks.check(w)
-        if lost:
-            failures.extend({"signature": sig, "what": "after step %d (%s): %s" % (k, " ".join(map(str, oev)), what)} for sig, what in lost)
-            steps[-1] = (oev, code, R.hash_digest(d), d)
-            break
+        lost = acks.check(w) if not failures else []     # the first loss is reported; the run goes on so that the clients' reads show it too
+        failures.extend({"signature": sig, "what": "after step %d (%s): %s" % (k, " ".join(map(str, oev)), what)} for sig, what in lost)
     return w, steps, failures
 
 
@@ -100,10 +97,10 @@ def run(ctx):
             w, steps, failures = run_fixed(h, c)
             payload = {k: v for k, v in c.items() if k in ("params", "events", "picks", "name")}
             for f in failures:
-                ctx.failures.append(dict(f, case=payload))
+                ctx.failures.append(dict(f, case=payload, obs={"history": list(w.hist), "applied_log": L.applied_log(w)}))
             records.append((payload, c["params"], steps, list(w.hist), w, c.get("expect", {})))
         if not ctx.replay:
-            nwalks, lo, hi = (8, 140, 320) if ctx.tier == "quick" else (80, 200, 1500)
+            nwalks, lo, hi = (6, 140, 300) if ctx.tier == "quick" else (80, 200, 1500)
             budget = 30 if ctx.tier == "quick" else 1200
             for k in range(nwalks):
                 if time.time() - t0 > budget:
@@ -192,7 +189,10 @@ MANIFEST = {
              "acknowledged_put_never_lost (the entry of an acknowledged Put stays at its index in every server that commits it, in every continuation) and "
              "linearizable_without_retry (if no client request is applied twice the history is linearizable in the order of the applied log). Every history produced by seeded walks of the real generated archetypes (1-3 servers, 1-3 clients, 1-3 keys, retries, "
              "crashes) is checked by the Coq checker and its Python port; a non-linearizable history that is not explained by a re-applied retried Put "
-             "is a violation."),
+             "is a violation. Scripted leader-change scenarios with two clients (corpus/C09, lib/c09_scen.py: leader crashes after acknowledging a Put before the "
+             "followers learn the commit index, a deposed leader asked for a Get, a short-log candidate after an acknowledged Put, and client-carrying versions of "
+             "the C08 scenarios) run on every check, archived and live; acknowledged_put_never_lost is also checked as an oracle on every step of every run "
+             "(signature acknowledged-put-lost)."),
     "level_note": ("Known finding: raftkvs is not linearizable under client retries (no request de-duplication). Trusted: Coq kernel, the C08 model and "
                    "its step-level tie, the classifier that separates the known finding from other non-linearizable histories (test infrastructure)."),
 }
